@@ -519,6 +519,10 @@ fn value_as_time(
                 .get("cook")
                 .map(|v| value_as_minutes(v, converter))
                 .transpose()?;
+            // at least one has to be there, as the docs of `RecipeTime` say
+            if prep_time.is_none() && cook_time.is_none() {
+                return Err(MetadataError::BadMapping);
+            }
             Ok(RecipeTime::Composed {
                 prep_time,
                 cook_time,
